@@ -16,7 +16,7 @@ EXPLANATION = (
     "replaces the document; (R5) the rename handler cannot panic on a binder kind the resolver produces (shared with "
     "C18); (R6) DOC-SYNC - didOpen overwrites the tracked text, didClose forgets it, and every text read from disk is "
     "tracked so that its diagnostics are reset. Equality with a fresh server over all histories is not decided.")
-EXPLANATION += ' Further clauses: every entry of the diagnostics map is published (R2); Workspace.errors is emptied only by diagnostics() (R3); the changes of one notification are applied in the order sent, each bound an unmodified conversion against the current text (R4); (R7) CLAMP (shared C16.R3). R3 also requires every Ok return of diagnostics() to carry the map seeded from docs and that map to be only added to; (R8) HANDLER-NO-REJECT (shared C18.R7). R6 also requires a closed document to be cleared; (R9) LOADER-TEXT (shared C11.R1).'
+EXPLANATION += ' Further clauses: every entry of the diagnostics map is published (R2); Workspace.errors is emptied only by diagnostics() (R3); the changes of one notification are applied in the order sent, each bound an unmodified conversion against the current text (R4); (R7) CLAMP (shared C16.R3). R3 also requires every Ok return of diagnostics() to carry the map seeded from docs and that map to be only added to; (R8) HANDLER-NO-REJECT (shared C18.R7). R6 also requires a closed document to be cleared; (R9) LOADER-TEXT (shared C11.R1). (R10) MONOTONE (shared C16.R10: a range starting inside a surrogate pair must not make replace_range panic).'
 TECHNIQUE = "static analysis: MIR must-pass-through rules on the LSP event loop + units inference"
 
 MUTATORS = ('Workspace::open', 'Workspace::close', 'Workspace::change')
@@ -449,6 +449,8 @@ def r6_doc_sync(c, facts):
 
 def run(c, facts):
     import c11 as _c11
+    import c16 as _c16
+    c.run(lambda c: _c16.r10_monotone_column(c, facts, rule='C15.R10'))
     R9 = c.rule('C15.R9', 'LOADER-TEXT: the server keeps, reads and parses the texts exactly as the client sent them and as they are on disk, so every client position refers to the text the server holds (shared with C11.R1)')
     c.run(lambda c: _c11.loader_text(c, facts, R9))
     import c18
